@@ -96,6 +96,47 @@ pub fn run(o: &Opts) -> i32 {
             }
         }
     }
+    // --- the four places that compute a property of an amount must agree: `<p> of <k> <s>` (Substance::get, the
+    // modelled one), `<k> <s>` (to_reply), `<k> <s> -> <unit>` (get_in_unit) and `<p> of <k> <s> -> <unit>`
+    let mut paths_checked = 0u64;
+    {
+        use rink_core::output::QueryReply;
+        let plain = |n: &str| !n.is_empty() && n.chars().all(|c| c.is_ascii_alphanumeric() || c == '_');
+        let mut ev = |q: &str| -> Option<QueryReply> {
+            std::panic::catch_unwind(std::panic::AssertUnwindSafe(|| { let (_qq, r) = crate::evalsess::eval_pinned(&mut c2, q); r.ok() })).unwrap_or(None)
+        };
+        for (sname, s) in &reg.substances {
+            if !plain(sname) || ctx.lookup(sname).is_some() { continue; }
+            if !o.thorough && !rng.chance(1, 3) { continue; }
+            for (pname, p) in s.properties.properties.iter() {
+                if !plain(pname) || !p.input.dimless() || p.output.unit.is_dimensionless() { continue; }
+                let unit_text: String = p.output.unit.iter().map(|(k, e)| format!("{}^{}", k, e)).collect::<Vec<_>>().join(" ");
+                for k in ["3", "(1|2)", "7.5"] {
+                    // reference: the modelled path
+                    let want = match ev(&format!("{} of {} {} -> {}", pname, k, sname, unit_text)) { Some(QueryReply::Conversion(c)) => c.value.raw_value.clone(), _ => None };
+                    let want = match want { Some(w) => w, None => continue };
+                    paths_checked += 1;
+                    if let Some(QueryReply::Substance(r)) = ev(&format!("{} {} -> {}", k, sname, unit_text)) {
+                        if let Some(pr) = r.properties.iter().find(|x| &x.name == pname) {
+                            if pr.value.raw_value.as_ref() != Some(&want) {
+                                nviol += 1;
+                                writeln!(orc, "{}", json!({"law": "paths-agree", "query": format!("{} {} -> {}", k, sname, unit_text), "property": pname, "want": fmt_number(&want), "got": pr.value.raw_value.as_ref().map(fmt_number)})).unwrap();
+                            }
+                        }
+                    }
+                    let direct = match ev(&format!("{} of {} {}", pname, k, sname)) { Some(QueryReply::Number(n)) => n.raw_value.clone(), Some(QueryReply::Duration(d)) => d.raw.raw_value.clone(), _ => None };
+                    if let (Some(direct), Some(QueryReply::Substance(r))) = (direct, ev(&format!("{} {}", k, sname))) {
+                        if let Some(pr) = r.properties.iter().find(|x| &x.name == pname) {
+                            if pr.value.raw_value.as_ref() != Some(&direct) {
+                                nviol += 1;
+                                writeln!(orc, "{}", json!({"law": "paths-agree", "query": format!("{} {}", k, sname), "property": pname, "want": fmt_number(&direct), "got": pr.value.raw_value.as_ref().map(fmt_number)})).unwrap();
+                            }
+                        }
+                    }
+                }
+            }
+        }
+    }
     // formulas over the element symbols, counts to 2^32-1, near misses
     let syms: Vec<String> = reg.substance_symbols.keys().cloned().collect();
     let nform = if o.thorough { 40_000 } else { 3_000 };
@@ -126,6 +167,6 @@ pub fn run(o: &Opts) -> i32 {
     }
     req.flush().unwrap(); imp.flush().unwrap(); orc.flush().unwrap();
     crate::util::write_json(&format!("{}/stats.json", o.out), &json!({"total": total, "substances": reg.substances.len(), "symbols": syms.len(),
-        "formulas": forms.len(), "linear_law_checked": linear_checked, "of_query_checked": glue_checked, "oracle_violations": nviol, "samples": samples}));
+        "formulas": forms.len(), "linear_law_checked": linear_checked, "of_query_checked": glue_checked, "paths_agree_checked": paths_checked, "oracle_violations": nviol, "samples": samples}));
     0
 }
